@@ -140,14 +140,17 @@ def read_dart(out):
 
 
 def read_kotlin(out):
-    syms = set()
+    syms, used = set(), set()
     for p in files(out, (".kt",)):
         if os.path.basename(p) == "Lib.kt":
             continue
         txt = open(p).read()
         for blk in re.findall(r"internal interface \w+Lib: Library \{(.*?)\n\}", txt, re.S):
             syms.update(re.findall(r"^\s*fun ([A-Za-z_]\w*)\(", blk, re.M))
-    return syms, set()
+        # call sites through the JNA proxy (`lib.Type_method(..)`, the Cleaner's / finalizer's `lib.Type_destroy(handle)`): a call of a
+        # function the interface does not declare compiles nowhere and resolves nowhere (seed C06-g)
+        used.update(re.findall(r"\blib\.([A-Za-z_]\w*)\(", txt))
+    return syms, used
 
 
 def read_backend(b, out):
@@ -191,7 +194,9 @@ def main(tier, seed):
         for t, m in prog.methods():
             m.abi_name = "x"    # names are decided by the macro, not by us
         d = toolrun.fresh_dir(toolrun.workdir("c06", "p%d_%s" % (i, b)))
-        src, cfg = tooltier.write_program(prog, d, tooltier.STD_CONFIG[b])
+        # the non-default code shapes of a backend name the same symbols: Kotlin finalizers instead of Cleaners, the JS spec ABI
+        variant = {"kotlin": "use_finalizers_not_cleaners = true\n", "js": "[js]\nabi = \"spec\"\n", "demo_gen": "[js]\nabi = \"spec\"\n"}.get(b, "") if i % 2 else ""
+        src, cfg = tooltier.write_program(prog, d, tooltier.STD_CONFIG[b] + variant)
         res = dict(job=job, viol=[], inconc=None, nsyms=len(allsyms), nuses=0, sites=sum(1 for x in [prog.modules[0]] + list(prog.types()) if getattr(x, "abi_pat", None))
                    + sum(1 for t, m in prog.methods() if m.abi_pat) + sum(1 for t in prog.types() if t.impl_pat))
         rc, o, e = toolrun.rustc_lib(src, os.path.join(d, "lib.a"))
